@@ -1,6 +1,8 @@
 use crate::util::*;
+pub mod indent;
 pub mod matching;
 pub mod notation;
+pub mod print;
 pub mod rules;
 pub mod tables;
 
@@ -17,6 +19,13 @@ pub fn run(unit: &str, ctx: &Ctx, rng: &mut Rng, o: &mut Out) -> bool {
     "substring" => notation::substring(ctx, rng, o),
     "template_scan" => notation::template_scan(ctx, rng, o),
     "c20_oracle" => notation::oracle(ctx, rng, o),
+    "indent" => indent::indent(ctx, rng, o),
+    "template_fix" => indent::template_fix(ctx, rng, o),
+    "c07_oracle" => indent::oracle(ctx, rng, o),
+    "bytes" => print::bytes(ctx, rng, o),
+    "print" => print::print(ctx, rng, o),
+    "jsonframe" => print::jsonframe(ctx, rng, o),
+    "c16_cli" => print::cli_unit(ctx, rng, o),
     "cut" => matching::cut_unit(ctx, rng, o),
     "near_miss" => matching::near_miss_unit(ctx, rng, o),
     "rules_shared" => rules::rules_unit(ctx, rng, o, true),
@@ -29,6 +38,12 @@ pub fn run(unit: &str, ctx: &Ctx, rng: &mut Rng, o: &mut Out) -> bool {
 /// execute one recorded op (`{"op","a"}`) on the current implementation
 pub fn exec_op(op: &str, a: &serde_json::Value) -> serde_json::Value {
   if let Some(v) = notation::exec(op, a) {
+    return v;
+  }
+  if let Some(v) = indent::exec(op, a) {
+    return v;
+  }
+  if let Some(v) = print::exec(op, a) {
     return v;
   }
   serde_json::json!({"harness_error": format!("op {op} is not replayable stand-alone")})
